@@ -59,10 +59,31 @@ class FakeLoop:
 _SCREEN = None
 
 
+class _NoEvents:
+    """stands in for selectors.DefaultSelector in get_available_raw_input(): the resize pipe never has anything to drain here (saves two system calls per read)"""
+
+    def __enter__(self):
+        return self
+
+    def __exit__(self, *a):
+        return False
+
+    def register(self, *a, **k):
+        pass
+
+    def select(self, timeout=None):
+        return []
+
+
 def screen():
     global _SCREEN
     if _SCREEN is None:
         _SCREEN = raw.Screen(input=_In(), output=_Out())
+        import types
+
+        from urwid.display import _raw_display_base as rdb
+
+        rdb.selectors = types.SimpleNamespace(DefaultSelector=_NoEvents, EVENT_READ=1)
     s = _SCREEN
     s._partial_codes = []
     s._input_timeout = None
